@@ -263,13 +263,23 @@ def r4_dispatch_and_remove(ctx):
     # alias binds the alias name to the existing handler
     al = F.one(r"^jsonrpsee_core::server::rpc_module::RpcModule::<Context>::register_alias$")
     R.fn(al)
-    g = al.calls_to(r"HashMap::<.*>::get$")
+    g = al.calls_to(r"HashMap::<.*>::get$") or al.calls_to(r"rpc_module::Methods::method$")   # the module's own accessor is the same lookup
     i = al.calls_to(r"HashMap::<.*>::insert$")
     ok = len(g) == 1 and len(i) == 1
     if ok:
         lg = tr.origins(al, g[0].args[1])
         li = tr.origins(al, i[0].args[1])
-        lval = tr.origins(al, i[0].args[2])
+        lval = list(tr.origins(al, i[0].args[2]))
+        # `.get(existing).cloned().ok_or_else(..)?` : look through the combinators to the lookup itself
+        for _ in range(4):
+            more = []
+            for x in lval:
+                if x.kind == "call" and re.search(r"Option::<.*>::(cloned|copied|ok_or|ok_or_else|map)$|Result::<.*>::(map|map_err)$|Try>?::branch$|Clone>?::clone$", x.detail.get("callee") or "") and x.detail.get("args"):
+                    more += tr.origins(F.bodies[x.where], x.detail["args"][0])
+            new_ = [m for m in more if m not in lval]
+            if not new_:
+                break
+            lval += new_
         ok = all(x.kind == "param" and x.detail["idx"] == 3 for x in lg) and all(x.kind == "param" and x.detail["idx"] == 2 for x in li) and any(x.kind == "call" and x.detail["bb"] == g[0].bb for x in lval)
     R.check(ok, "C13.R4", "alias:binds-existing-handler", "alias -> the handler currently bound to existing_method", "register_alias does not bind `alias` to the handler looked up under `existing_method`", "%s:%d" % (al.file, al.lo))
 
